@@ -67,6 +67,9 @@ func (s *Server) doScanCommon(cmd redcon.Command) ([]interface{}, []byte, error)
 				if err != nil {
 					return nil, nil, err
 				}
+				if count < 0 {
+					return nil, nil, common.ErrInvalidArgs
+				}
 				break
 			}
 		}
